@@ -255,11 +255,11 @@ class _Shard(threading.Thread):
             if eof and p.returncode == 0:
                 if stderr_text.strip() and ("Sanitizer" in stderr_text or (self.wrap and "==" in stderr_text)):
                     # sanitizer report that did not stop the process (TSan halt_on_error=0)
-                    self.results.setdefault("_sanitizer", []).append(stderr_text[-20000:])
+                    self.results.setdefault("_sanitizer", []).append(stderr_text[-4000000:])
                 break
             if eof and p.returncode != 0:
                 # finished all cases but exit code non-zero (TSan exit 66, LSan)
-                self.results.setdefault("_sanitizer", []).append(stderr_text[-20000:])
+                self.results.setdefault("_sanitizer", []).append(stderr_text[-4000000:])
                 break
             done = [r.get("i") for r in recs if isinstance(r.get("i"), int)]
             culprit = (max(done) + 1) if done else skip
